@@ -305,7 +305,7 @@ async def chat_completion(body: RequestBody, request: Request):
         )
     try:
         llm_rails = _get_rails(config_ids)
-    except ValueError as ex:
+    except (ValueError, OSError) as ex:
         log.exception(ex)
         return {
             "messages": [
